@@ -271,6 +271,27 @@ def mujoco_worker(name: str, n: int, seed: int) -> dict:
                 want = -float(np.clip(g._impact_cost_weight * float(np.sum(np.square(cfl))), lo, hi))
             cf_formula = max(cf_formula, _dev(cl, want))
 
+    # non-default observation options: the same option on both sides, observation of the same reset state
+    import inspect
+    D["option_obs"] = []
+    variants = []
+    for pname, par in inspect.signature(type(env).__init__).parameters.items():
+        if isinstance(par.default, bool) and (pname.startswith("include_") or pname.startswith("exclude_")):
+            variants.append({pname: not par.default})
+    for kw in variants:
+        try:
+            g2 = gym.make(f"{name}-v5", **kw).unwrapped
+        except TypeError:
+            continue                                   # Gymnasium has no such option: nothing to compare with
+        env2 = type(env)(**kw)
+        g2.reset(seed=seed)
+        qpos, qvel = canonical(g2.data.qpos), g2.data.qvel.copy()
+        g2.set_state(qpos, qvel)
+        st2 = place(env2, jnp.asarray(qpos, jnp.float32), jnp.asarray(qvel, jnp.float32))
+        o2 = np.asarray(obs_l(env2, st2), dtype=np.float64)
+        declared = tuple(np.asarray(env2.observation_space.low).shape)
+        D["option_obs"].append(_dev(o2, g2._get_obs()) if o2.shape == declared else math.inf)
+
     def judge(vals, physics: bool) -> bool:
         if not vals:
             return True
@@ -285,6 +306,7 @@ def mujoco_worker(name: str, n: int, seed: int) -> dict:
         "TimeStepIsGymnasiums": bool(abs(float(env.dt) - float(g.dt)) < 1e-7 and int(env.frame_skip) == int(g.frame_skip)),
         "ResetObservationIsGymnasiums": bool(judge(D["reset_obs"], False) and judge(D["own_reset_obs"], False)),
         "ObservationOfPlacedStatesIsGymnasiums": judge(D["placed_obs"], False),
+        "ObservationUnderNonDefaultOptionsIsGymnasiums": judge(D["option_obs"], False),
         "StepObservationIsGymnasiums": judge(D["obs"], True),
         "RewardIsGymnasiums": judge(D["rew"], True),
         "RewardComponentsAreGymnasiums": bool(comps_ok),
